@@ -1597,6 +1597,9 @@ impl ContinuityStore {
                 Err(_) => break,
             }
 
+            if tail_bytes >= MAX_TAIL_BYTES {
+                break;
+            }
             tail_bytes = (tail_bytes * 2).min(MAX_TAIL_BYTES);
         }
 
@@ -1831,6 +1834,9 @@ impl ContinuityStore {
                 Err(_) => break,
             }
 
+            if tail_bytes >= MAX_TAIL_BYTES {
+                break;
+            }
             tail_bytes = (tail_bytes * 2).min(MAX_TAIL_BYTES);
         }
 
@@ -1981,6 +1987,9 @@ impl ContinuityStore {
                 }
                 Ok(None) => break,
                 Err(_) => break,
+            }
+            if tail_bytes >= MAX_TAIL_BYTES {
+                break;
             }
             tail_bytes = (tail_bytes * 2).min(MAX_TAIL_BYTES);
         }
@@ -2151,6 +2160,9 @@ impl ContinuityStore {
                 Err(_) => break,
             }
 
+            if tail_bytes >= MAX_TAIL_BYTES {
+                break;
+            }
             tail_bytes = (tail_bytes * 2).min(MAX_TAIL_BYTES);
         }
 
